@@ -740,10 +740,8 @@ fn check_vt(r: &mut Report, seed: u64, idx: u64, run: &CaseRun) {
             }
         }
     }
-    // waits after the last call of an unfinished run are idle waits too
-    if !pending_waits.is_empty() {
-        idle_runs.push(std::mem::take(&mut pending_waits));
-    }
+    // waits after the last call of a run that was cut short cannot be classified: leave them out
+    pending_waits.clear();
     r.observe("vt:batches", batches.len() as u64);
 
     // ---- per batch: attempts, back-off ----
@@ -1048,6 +1046,8 @@ mod threads {
         CurrentThreadTask,
         #[cfg(feature = "tokio")]
         MtSpawnBlocking,
+        #[cfg(feature = "tokio")]
+        MtBlockOnLocalSet,
     }
 
     impl Ctx {
@@ -1055,7 +1055,7 @@ mod threads {
             #[allow(unused_mut)]
             let mut v = vec![Ctx::PlainThread];
             #[cfg(feature = "tokio")]
-            v.extend([Ctx::MtWorker, Ctx::MtBlockOn, Ctx::CurrentThread, Ctx::CurrentThreadTask, Ctx::MtSpawnBlocking]);
+            v.extend([Ctx::MtWorker, Ctx::MtBlockOn, Ctx::CurrentThread, Ctx::CurrentThreadTask, Ctx::MtSpawnBlocking, Ctx::MtBlockOnLocalSet]);
             v
         }
 
@@ -1072,6 +1072,8 @@ mod threads {
                 Ctx::CurrentThreadTask => "tokio-current-thread-task",
                 #[cfg(feature = "tokio")]
                 Ctx::MtSpawnBlocking => "tokio-mt-spawn_blocking",
+                #[cfg(feature = "tokio")]
+                Ctx::MtBlockOnLocalSet => "tokio-mt-block_on-localset",
             }
         }
     }
@@ -1189,6 +1191,12 @@ mod threads {
                     Ok(r) => r,
                     Err(e) => Err(format!("task failed: {}", e)),
                 }
+            }
+            #[cfg(feature = "tokio")]
+            Ctx::MtBlockOnLocalSet => {
+                let rt = tokio::runtime::Builder::new_multi_thread().worker_threads(2).enable_all().build().unwrap();
+                let local = tokio::task::LocalSet::new();
+                rt.block_on(local.run_until(async move { guarded() }))
             }
         }
     }
@@ -1439,7 +1447,9 @@ mod threads {
             match &out.ret {
                 Err(msg) => {
                     r.violation(
-                        &format!("C08:ctx:panic:{}", cell_sig),
+                        // the channel state is in the case, not in the signature: a panic caused by the
+                        // calling context is one defect, whatever the queue looked like
+                        &format!("C08:ctx:panic:{}:{}", entry.name(), ctx.name()),
                         &format!("{} panicked when called from {} on a {} channel: {}", entry.name(), ctx.name(), state.name(), msg),
                         case.clone(),
                     );
@@ -1584,7 +1594,7 @@ mod threads {
                     sender.when_flushed(move || {
                         fired[idx].fetch_add(1, Ordering::SeqCst);
                         if panics {
-                            panic!("scripted panic in a flush callback on the worker thread");
+                            quiet(|| panic!("scripted panic in a flush callback on the worker thread"));
                         }
                     })
                 });
